@@ -160,11 +160,17 @@ inductive PerfectPre where
   | proceeds
   deriving Repr
 
-/-- `toF64` converts an input of type `F` to `f64` (exact), `isNeg` is `prob < F::zero()` -/
+/-- everything before the optimisation loop (after the repairs D18, D19): length check, negative
+    entries rejected up front, normalisation check; the first pass hands out
+    `min ((prob * scale) as Probability) remaining`, which can neither underflow `remaining`
+    nor overflow `weight = current + 1` (`remaining ≤ 2^B - 2`), so it never faults.
+    `toF64` converts an input of type `F` to `f64` (exact). -/
 def perfectPre {F : Type} (o : FOps F) (toF64 : F → Float) (B P : Nat) (probs : List F) :
     PerfectPre :=
   let n := probs.length
   if n < 2 || n > 2 ^ B - 1 then .rejected
+  -- `prob < F::zero()`  ⇔  `prob <= 0 && !(0 <= prob)`
+  else if probs.any (fun p => o.le p o.zero && !(o.le o.zero p)) then .rejected
   else
     let free := freeWeight B P n
     let normalization := f64Ops.sum (probs.map toF64)
@@ -174,13 +180,9 @@ def perfectPre {F : Type} (o : FOps F) (toF64 : F → Float) (B P : Nat) (probs 
       let rec go (remaining : Nat) : List F → PerfectPre
         | [] => .proceeds
         | p :: rest =>
-          -- `prob < F::zero()`  ⇔  `prob <= 0 && !(0 <= prob)`
-          if o.le p o.zero && !(o.le o.zero p) then .rejected
-          else
-            let cur := f64Ops.toUInt B (toF64 p * scale)
-            if cur > remaining then .fault (.overflow "perfect.remaining")
-            else if cur + 1 ≥ 2 ^ B then .fault (.overflow "perfect.weight")
-            else go (remaining - cur) rest
+          let cur := min (f64Ops.toUInt B (toF64 p * scale)) remaining
+          if cur + 1 ≥ 2 ^ B then .fault (.overflow "perfect.weight")
+          else go (remaining - cur) rest
       go free probs
 
 /-- the output contract of the `…_perfect` constructors -/
